@@ -24,7 +24,8 @@ LEVEL_TEXT = ("Partial. Unbounded proof: for every byte string (and start positi
               "read at the end of the data raises; an accepted chunk header makes the AXML chunk loop advance by at least "
               "eight bytes; and the complete binary XML parser as modelled for C26 (chunk loop, event loop, resource map, "
               "namespaces, attribute records, every string pool lookup) ends on EVERY byte string within fuel linear in its "
-              "length. Not proved: termination of the complete DEX and ARSC parsers and of the zip layer; they are run on "
+              "length; and so does the walk over a resource table as modelled for C28 (table, packages, string pools, type "
+              "chunks, entries). Not proved: termination of the complete DEX parser and of the zip layer; they are run on "
               "mutated, truncated and crafted inputs under a time limit that grows with the input size (reference "
               "resolution in resource tables is C29).")
 LEVEL_NOTE = ("Trusted: Coq kernel; coq/Misc/TermModel.v as a rendering of ARSCHeader.__init__, DebugInfoItem.__init__ and "
